@@ -231,7 +231,7 @@ prop(
 prop(
     id="C06", module="Properties.C06", vfile="Properties/C06.v", level="proof", subcmd="c06",
     theorems=["C06_tiers_ok", "C06_markers_disjoint", "C06_slot_roundtrip", "C06_chain_roundtrip_multipart",
-              "C06_chain_roundtrip_single", "C06_select_tier_fits", "C06_multipart_needs_two_parts"],
+              "C06_chain_roundtrip_single", "C06_select_tier_fits", "C06_multipart_needs_two_parts", "Alloc.C06_stored_value_reads_back_in_every_reachable_table", "Alloc.C06_replaced_value_reads_back_in_every_reachable_table"],
     counts={"quick": 1600, "thorough": 80000, "search": 8000},
     rule="three case families: (compressed, 1 in 8) one Set into a column compressed with lz4 or snappy (threshold 0 / 64 / 4096) of a value whose length is a tier boundary, 32000-34000, 34000-220000, "
          "1-200 or 200-32000 and whose content is constant, periodic, random-head-constant-tail, low-entropy or random; read back bit-exact while queued, after the drain and after a reopen, get_size checked, and the "
@@ -302,7 +302,7 @@ prop(
          "shrink); after the drain the tree is read from the RAW files by the harness's parser and judged by the extracted proved checker; its in-order key list must "
          "equal the live keys. Non-trivial: a history that touches a key while an earlier touch is not yet enacted (c04), a tree of depth >= 1 (c04t)",
     assumptions=["tree mutation: proved for one change at a time (any sequence of sets and removals); the batched descent of Node::change over several sorted changes of one transaction is tied to the one-at-a-time model by c04m (a third of its transactions carry 2-6 changes; the resulting tree must equal the tree the model builds change by change in key order) and judged by the proved checker on raw dumps in c04 / c04t; values and reference counts of btree entries are not part of the mutation model (a removal is a removal that takes the key out)",
-                 "the merge of the tree cursor with a NON-EMPTY commit overlay is tied by correspondence and by the oracle, not proved (the proved sequence theorem is for an empty overlay with arbitrarily changing tree content)",
+                 "the merge of the tree cursor with the commit overlay is proved for an overlay given as a sorted list of the pending changes (C04_merged_step_is_next, C04_merged_iteration_is_spec); that the commit overlay of the code presents itself to the iterator as that list is tied by correspondence and by the oracle",
                  "the tree cursor over nodes is abstracted to a cursor over the sorted entry list; that abstraction is what the correspondence validates"],
     explanation="iterator modelled as tree-cursor + commit-overlay merge exactly as iter_inner does it (pending item, last key, re-seek on change); proved checker for raw tree dumps",
 )
@@ -381,7 +381,7 @@ prop(
     id="C14", module="Properties.C14", vfile="Properties/C14.v", level="proof", subcmd="c14",
     subcmds=[("c14", {"quick": 640, "thorough": 40000, "search": 3200}), ("c14a", {"quick": 640, "thorough": 40000, "search": 3200})],
     theorems=["C14_accepted_table_is_partitioned", "C14_no_slot_twice", "C14_no_slot_leaked", "C14_checked_table_satisfies_invariant", "C14_alloc_pops_free_list", "C14_alloc_extends_only_when_list_empty", "C14_free_pushes_on_free_list",
-              "C14_store_keeps_partition", "C14_remove_keeps_partition", "C14_replace_keeps_partition", "C14_reachable_tables_partitioned"],
+              "C14_store_keeps_partition", "C14_remove_keeps_partition", "C14_replace_keeps_partition", "C14_reachable_tables_partitioned", "Nodes.C14_node_counts_equal_referencing_parents", "Nodes.C14_no_root_no_node"],
     counts={"quick": 640, "thorough": 40000, "search": 3200},
     rule="(c14a, allocator correspondence) 6-30 operations on ONE value table - a fixed size tier (values of exactly the tier's capacity) or the multi-part table (values of 9-14 slots) - each "
          "its own transaction, drained: store a value / remove the j-th live value / replace the j-th live value by one of another length (the chain is reused, extended from the free list or cut, ValueTable::overwrite_chain); after every operation the raw table file is classified slot by slot and compared with the table the model's "
@@ -393,7 +393,7 @@ prop(
          "hash column is compared with the live keys. distinct = histories",
     assumptions=["live content is taken from reads through a fresh handle (their correctness is the subject of C01/C04/C07)",
                  "the index-entry-resolves-to-its-own-key clause is covered through reads (every live key is found) and the entry codec proofs of C09, not by a raw index walk",
-                 "multitree node counts are not part of this check (entry counts of multitree columns: C10)"],
+                 "multitree node counts: proved on the multitree model (Nodes.C14_node_counts_equal_referencing_parents, from the forest invariant of C10) and checked on the raw reference count table files by the C10 check (c10r), not by this check's dumps"],
     explanation="a checker for raw value-table dumps (free-list walk, chain walks, every slot exactly once) proved sound for all dumps; the btree half is the proved checker of C04",
 )
 
